@@ -58,6 +58,7 @@ def check_spec(spec, ctx):
                   "C02.ravel", lambda: f"ravel({var['name']}) has dims {flat.dims} shape "
                   f"{flat.shape}; expected {other} + linear of size {n_cells}")
         flat_values = flat.values
+        stride = max(1, n_cells // 6)
         for n in range(n_cells):
             comps = refmodel.native_components(spec, kind, n)
             native = conv.wind_index(n, grid_kind=ke)
@@ -67,6 +68,20 @@ def check_spec(spec, ctx):
                       lambda: f"isel(selector_for_index({native!r})) of {var['name']} leaves dims "
                       f"{picked.dims}, expected {other}")
             picked_values = picked.values
+            if n % stride == 0 or n == n_cells - 1:
+                # the documented dataset-level route (sampled on the larger grids)
+                with ctx.using("C02.select_index", f"select_index({native!r})"):
+                    by_index = conv.select_index(native)
+                    selected = by_index[var["name"]]
+                    selected_values = selected.transpose(*other).values
+                for extra_idx in itertools.product(*(range(sizes[d]) for d in other)):
+                    idx = dict(zip(other, extra_idx))
+                    idx.update(dict(zip(gdims[kind], comps)))
+                    want = expected_scalar(spec, var, idx)
+                    got = selected_values[extra_idx]
+                    ctx.check(same_number(got, want), "C02.select_index",
+                              lambda: f"select_index({native!r})[{var['name']}][{extra_idx}] = "
+                              f"{got!r}, the spec stores {want!r} at {idx}")
             for extra_idx in itertools.product(*(range(sizes[d]) for d in other)):
                 idx = dict(zip(other, extra_idx))
                 idx.update(dict(zip(gdims[kind], comps)))
